@@ -7,19 +7,19 @@ import check
 
 CLAIMS = {
  "C01": dict(engine="protocol-sim", cat="exploration", ref="§3 C01",
-   text="Seeded exploration: honest opening sets (sizes, index patterns, polynomial classes, commitment representations, labels) are proved and verified by the real instrumented code, prover and verifier each under a seeded schedule and an independently drawn simulated CPU count, with the proof carried over a chunking reader; accept + equal next challenge + no deadlock/panic is checked on every run. Evidence, not proof: only sampled inputs, CPU counts and schedules are judged.",
+   text="Seeded exploration: honest opening sets (sizes, index patterns, polynomial classes, commitment representations, labels) are proved and verified by the real instrumented code, prover and verifier each under a seeded schedule and an independently drawn simulated CPU count, with the proof carried over a chunking reader; accept + equal next challenge + no deadlock/panic is checked on every run; polynomial classes include limb-, window- and Montgomery-representation boundaries; a second stage repeats part of the workload in a -race build (scheduler handoffs hidden from the detector) so that conflicts below synchronisation-point granularity are seen. Evidence, not proof: only sampled inputs, CPU counts and schedules are judged.",
    note="instrumentation preserves semantics (tested in pass-through); commitments are the library's own Commit(f) (C05 not claimed)",
    tech="deterministic simulation: seeded goroutine scheduler + simulated CPU count over prover/verifier nodes, oracle = acceptance and transcript agreement"),
  "C02": dict(engine="protocol-sim+wire", cat="exploration", ref="§3 C02",
-   text="Fault injection on the prover->verifier message (byte flips, component replacement, splices of two in-flight proofs, reorder/duplicate/drop of openings, label change, shape faults, representation-only changes) on honest traffic; the library verifier's decision is compared with an independent math/big reference verifier on the delivered message, and any accepted message must be value-identical to a sent one. Explores the enumerated single-fault space by sampling; cannot find crafted forgeries.",
+   text="Fault injection on the prover->verifier message (byte flips, component replacement, splices of two in-flight proofs, reorder/duplicate/drop of openings, label change, shape faults, representation-only changes) on honest traffic; the library verifier's decision is compared with an independent math/big reference verifier on the delivered message, and any accepted message must be value-identical to a sent one (all-zero traffic exempt); 15% of the honest traffic is produced by the reference prover so that prover/verifier-consistent deviations from the specification show up; a separate mode drives ipa.CheckIPAProof with reference-made proofs, boundary evaluation points and non-group-element values. Explores the enumerated single-fault space by sampling; cannot find crafted forgeries.",
    note="trusted: reference model (self-validated against the repository's cross-implementation vectors at setup)",
    tech="deterministic simulation with message-fault injection on the prover->verifier wire, differential oracle against reference verifier"),
  "C03": dict(engine="protocol-sim", cat="exploration", ref="§3 C03",
-   text="Each sampled opening set is proved several times by the real code under different simulated CPU counts, schedule policies, commitment representations, pool/map-order decisions and positions in a call history; all serialisations must be byte-identical to each other and to the proof computed by the independent reference prover, and the next transcript challenge must agree.",
+   text="Each sampled opening set is proved several times by the real code under different simulated CPU counts, schedule policies, commitment representations, pool/map-order decisions and positions in a call history; all serialisations must be byte-identical to each other and to the proof computed by the independent reference prover, and the next transcript challenge must agree; ipa.CreateIPAProof is checked the same way at in-domain, out-of-domain and look-alike boundary points; a -race stage repeats part of the workload.",
    note="trusted: reference model; reference cost bounds the number of opening sets per run",
    tech="deterministic simulation over schedules/CPU counts/histories with a byte-for-byte reference-model oracle"),
  "C09": dict(engine="sched-sim", cat="exploration", ref="§3 C09",
-   text="Every goroutine, channel and WaitGroup of the MSM stack runs under the seeded scheduler with simulated CPU counts and task-count settings; sizes, scalar classes (small-value share around the 10% split threshold, carry chains, boundary values), point classes and, through a scratch-only overlay, every window width c in 4..16 (20..22 in thorough) x split mode are sampled; result must equal (sum s_i k_i)G computed by the reference model from known discrete logs; deadlock is detected exactly.",
+   text="Every goroutine, channel and WaitGroup of the MSM stack runs under the seeded scheduler with simulated CPU counts and task-count settings; sizes, scalar classes (small-value share around the 10% split threshold, carry chains, boundary values), point classes and, through a scratch-only overlay, every window width c in 4..16 (20..22 in thorough) x split mode are sampled; result must equal (sum s_i k_i)G computed by the reference model from known discrete logs; deadlock is detected exactly (also lock-order deadlocks; calls blocked outside the simulator's control are caught by a real-time watchdog); a -race stage repeats part of the workload so that workers sharing memory without synchronisation are reported even though they never interleave at synchronisation points.",
    note="trusted: reference scalar multiplication; internal entry points reached through an overlay file in the scratch copy (falls back to public API if internals are renamed)",
    tech="deterministic simulation: seeded scheduling of all MSM worker goroutines + NbTasks/NumCPU seams, exact deadlock detection, reference-sum oracle"),
  "C10": dict(engine="io-sim", cat="fault_enumeration", ref="§3 C10",
@@ -27,19 +27,19 @@ CLAIMS = {
    note="trusted: reference decoder; (0,nil) reads are not injected (the property says well-behaved reader)",
    tech="fault enumeration on simulated io.Reader/io.Writer (chunking, EOF style, errors, truncation, corruption) with reference acceptance-set oracle"),
  "C12": dict(engine="sched-sim -race", cat="exploration", ref="§3 C12",
-   text="2..8 client tasks issue seeded operation sequences against one shared IPAConfig inside the seeded scheduler in a -race build whose scheduler handoffs are hidden from the detector, so any pair of conflicting accesses executed in a run and not ordered by the library's own synchronisation is reported; every operation's output must equal its solo output; deadlocks are detected exactly.",
+   text="2..8 client tasks issue seeded operation sequences against one shared IPAConfig inside the seeded scheduler in a -race build whose scheduler handoffs are hidden from the detector, so any pair of conflicting accesses executed in a run and not ordered by the library's own synchronisation is reported; every operation's output must equal its output when executed alone afterwards in the same simulation; a third of the runs start on a pristine configuration (cold lazy state); streams read by clients yield at every read; deadlocks are detected exactly, calls blocked on state outside the simulation by a watchdog.",
    note="a race is only seen between accesses that a sampled run executes; interleavings switch at synchronisation points",
    tech="deterministic simulation of concurrent clients under a seeded scheduler in a race-detector build (handoffs hidden), solo-result oracle"),
  "C13": dict(engine="history-sim", cat="exploration", ref="§3 C13",
-   text="Seeded call histories (including failing calls) over shared argument objects; after every call deep fingerprints (reflect+unsafe, unexported fields included) of the configuration, of every package-level variable and of every caller-owned argument must be unchanged (commitments given to the prover may only change representation); a fixed probe gives identical bytes before and after the history.",
+   text="Seeded call histories (including failing calls) over shared argument objects; after every call deep fingerprints (reflect+unsafe, unexported fields included) of the configuration, of every package-level variable and of every caller-owned argument must be unchanged (commitments given to the prover may only change representation); a fixed probe gives identical bytes before and after the history and every call of the history, replayed at the end, must return what it returned the first time; objects returned to the caller are overwritten by the caller (nothing shared may change); private package state that is empty at process start may fill up (caches), everything else is strict.",
    note="fingerprint walks memory reachable from the roots; sync.* internals are skipped",
    tech="deterministic simulation of API call histories with state-fingerprint invariants after every step"),
  "C19": dict(engine="sched-sim", cat="exploration", ref="§3 C19",
-   text="BatchNormalize's workers run under the seeded scheduler with simulated CPU count and seeded map-iteration order; list lengths around worker-partition boundaries, aliasing patterns, representations, identity, and an un-normalisable element at each position are sampled; batch results must equal the single-element operations position by position and the error path must leave every element bitwise unchanged.",
+   text="BatchNormalize's workers run under the seeded scheduler with simulated CPU count and seeded map-iteration order; list lengths around worker-partition boundaries, aliasing patterns, representations, identity, and an un-normalisable element at each position are sampled; batch results must equal the single-element operations position by position and the error path must leave every element bitwise unchanged; a -race stage repeats part of the workload.",
    note="the sequential batch serialisers ride along in the same workload; their oracle is the property itself (single-element operation)",
    tech="deterministic simulation: seeded scheduling + CPU-count and map-order seams, fault = un-normalisable element, single-operation oracle"),
  "C20": dict(engine="sched-sim", cat="exploration", ref="§3 C20",
-   text="parallel.Execute runs under the seeded scheduler with adversarial yields inside the work function; quick samples boundary-biased (n,m), thorough walks the whole 2049x300 grid once plus random cells; at the instant Execute returns every started invocation must have finished, and the recorded ranges must partition [0,n) with at most min(n,m) non-empty invocations.",
+   text="parallel.Execute runs under the seeded scheduler with adversarial yields inside the work function; quick samples boundary-biased (n,m), thorough walks the whole 2049x300 grid once plus random cells; at the instant Execute returns every started invocation must have finished, and the recorded ranges must partition [0,n) with at most min(n,m) non-empty invocations; GOMAXPROCS is a seam of its own, atomic operations are scheduling points, re-entrant calls are part of the workload, and a -race stage repeats part of it.",
    note="one seeded schedule per grid cell, not all schedules",
    tech="deterministic simulation: seeded scheduler with injected delays, partition/join oracle"),
 }
